@@ -7,8 +7,7 @@
      x = [c1, .., cn]          copy := [c1, .., cn]
      x = [.. for ..]           no copy (an expression string)
      x.append(e)               copy := copy ++ [v]   v = the constant value of e, or the placeholder None when e is
-                               not a parse-time constant (a run-time scalar, an element of an untracked list, an
-                               element that is itself a placeholder, an index outside the copy)
+                               not a parse-time constant (a run-time scalar, any subscript `y[i]`)
      x.remove(e)               e constant and in the copy: its first occurrence is removed; e constant and not in
                                the copy: nothing; e not constant: the FIRST element of the copy is dropped (pop(0))
      x = x   /   x1, .., xn = y1, .., yn     the targets lose their copy (bound to expression strings)
@@ -51,16 +50,13 @@ Definition t_cur (t : tenv) (x : name) : option tcopy :=
 Definition t_set (x : name) (v : option tcopy) (t : tenv) : tenv :=
   if has x t then set_assoc x v t else t ++ [(x, v)].
 
-(* _eval_const of the argument against the copies *)
+(* _eval_const of the argument: a literal is a constant; a run-time scalar is not; a SUBSCRIPT is not either
+   (_eval_const does not evaluate `y[i]`, whatever the copy of y holds) *)
 Definition targ_val (t : tenv) (a : targ) : option Z :=
   match a with
   | TConst v => Some v
   | TRt _ => None
-  | TElem y i =>
-      match t_cur t y with
-      | Some cy => match py_index (length cy) i with Some k => nth k cy None | None => None end
-      | None => None
-      end
+  | TElem _ _ => None
   end.
 
 Fixpoint t_remove_first (v : Z) (l : tcopy) : option tcopy :=
